@@ -114,7 +114,7 @@ class HTTPResponse:
         self.status, self.headers, self.body, self.closed_early = status, headers, body, closed_early
 
 
-async def read_response(link, deadline_s):
+async def read_response(link, deadline_s, no_body=False):
     """Parse one HTTP/1.1 response from link.s2c (Content-Length or close-delimited or chunked).
     Returns HTTPResponse, or None if the server closed / nothing complete arrived before the deadline."""
     loop = link.loop
@@ -142,7 +142,10 @@ async def read_response(link, deadline_s):
     head = bytes(link.s2c[:i]).decode("latin1")
     lines = head.split("\r\n")
     parts = lines[0].split(" ", 2)
-    status = int(parts[1])
+    try:
+        status = int(parts[1])
+    except (ValueError, IndexError):
+        raise ValueError("simulated client cannot parse a status line out of %r" % bytes(link.s2c[:400]))
     headers = {}
     for l in lines[1:]:
         k, _, v = l.partition(":")
@@ -151,8 +154,8 @@ async def read_response(link, deadline_s):
     if 100 <= status < 200:
         # interim response (100 Continue): drop it and parse the final response that follows
         del link.s2c[:rest_from]
-        return await read_response(link, max(0.0, end - loop.time()))
-    if status in (204, 304):
+        return await read_response(link, max(0.0, end - loop.time()), no_body=no_body)
+    if status in (204, 304) or no_body:     # (answer to a HEAD request)
         del link.s2c[:rest_from]
         return HTTPResponse(status, headers, b"")
     if "content-length" in headers:
